@@ -39,6 +39,11 @@ CHECKS.update({
     'C18': dict(category='model_checking', text='The same environment scripts (union of the C03-C07 families incl. handshake sequences, simultaneous end causes, timing scripts, bursts) are executed on Server and AsyncServer; both traces are validated against the one specification EioServer, and the step-wise pairing of their observations (events, delivered messages with transport, liveness, transport, admission status) is validated by TLC against EioEquiv, which tolerates only silence-caused ends being detected at different moments (both must have ended the session by the end).', note=CORE_NOTE, technique='TLA+ spec EioServer/EioServerProps: TLC exhaustive (per-property alphabets) + TLC simulation replayed on real Server/AsyncServer + TLC batch trace validation of recorded executions', design_ref='4.6, 6 (C18)', engine='tlc-trace'),
 })
 
+CHECKS.update({
+    'C01': dict(category='model_checking', text='TLC checks the Packet-object state machine of EioCodec exhaustively (every (type, payload kind), every sequence of up to 4 encode() calls over both channel kinds: each call must return the representation of the channel asked for) together with the decode / round-trip / binary-only-MESSAGE tables, with the repaired cache defect F1 as negative control; the real Packet is then observed - constructor acceptance, all encode-call sequences up to length 3-4 on one object for ~150-500 payloads x 7 types, decode of every emitted wire form, of all strings up to length 3 (quick) / 4 (thorough) over a 14-symbol adversarial alphabet and of digit/b-prefixed adversarial texts - each observation is classified by an independent stdlib reference (json, base64) that also decides byte-exactness, and TLC validates every record against the EioCodec tables and cache machine.', note='Trusted: TLC, CPython json/base64 (reference encoder/decoder in vk/props/codec.py). The specification decides which wire form / decode outcome is due; byte equality is computed by the reference.', technique='TLA+ spec EioCodec: TLC exhaustive (cache state machine + rule tables) + TLC trace validation of observations of the real Packet', design_ref='6 (C01), 3.6', engine='tlc-table'),
+    'C02': dict(category='model_checking', text='TLC checks the payload outcome table (all-or-nothing, count gate at exactly the limit, order) over all piece sequences up to limit+2 for scaled limits; the real Payload is observed on packet lists of length 0..18, 25, 40 mixing text / JSON / binary / empty packets (encode must equal the reference join, decode must return the reference packets in order), on the form-encoded d= variant of each, on every string up to length 4 (quick) / 5 (thorough) over a 15-symbol adversarial alphabet incl. the separator, on random longer strings, and with the limit patched to 1..3; each observation is abstracted by the stdlib reference and validated by TLC against EioCodec; decode CPU time is watched (2 s).', note='Trusted: TLC, CPython json/base64/urllib (reference). Hang detection uses process CPU time (the one place wall-ish time is used).', technique='TLA+ spec EioCodec (payload table): TLC exhaustive + TLC trace validation of observations of the real Payload', design_ref='6 (C02), 3.6', engine='tlc-table'),
+})
+
 NOT_YET = 'check not built yet at this commit (construction order in DESIGN.md section 8)'
 
 
